@@ -104,6 +104,23 @@ class ShardResult:
         self.descs = {}
 
 
+def _take_run_slot():
+    """machine-wide bound on concurrently running shard processes (several checks may run at once)"""
+    import fcntl
+    n = int(os.environ.get("VERIF_RUN_SLOTS", "20"))
+    d = os.path.join(VERIF, ".build")
+    os.makedirs(d, exist_ok=True)
+    while True:
+        for i in range(n):
+            f = open(os.path.join(d, "lock-run-slot-%d" % i), "w")
+            try:
+                fcntl.flock(f, fcntl.LOCK_EX | fcntl.LOCK_NB)
+                return f
+            except OSError:
+                f.close()
+        time.sleep(0.5)
+
+
 def run_shard(binary, args, shard, nshards, outdir, env, case_timeout, total_timeout,
               keep_recs=True, rec_sink=None):
     """run one shard to completion, restarting after crashes; returns ShardResult"""
@@ -124,6 +141,9 @@ def run_shard(binary, args, shard, nshards, outdir, env, case_timeout, total_tim
                 e[k] = e[k] + ":log_path=" + sanp
         cmd = [binary] + args + ["--shard", str(shard), "--nshards", str(nshards),
                                  "--start", str(start), "--out", outp]
+        tw = time.time()
+        slot = _take_run_slot()
+        t_begin += time.time() - tw      # waiting for a machine-wide slot is not run time
         with open(errp, "wb") as ef:
             p = subprocess.Popen(cmd, stdout=ef, stderr=subprocess.STDOUT, env=e, cwd=outdir)
             # watchdog on progress of the output file
@@ -155,6 +175,7 @@ def run_shard(binary, args, shard, nshards, outdir, env, case_timeout, total_tim
                     p.wait()
                     break
         rc = p.returncode
+        slot.close()
         open_case = None
         done = False
         last_case = start - 1
@@ -263,8 +284,11 @@ def run_check(prop, tier, seed, repo, stages, level, rule, assumptions,
     for si, st in enumerate(stages):
         flavour = st.get("flavour", "san")
         e = dict(SAN_ENV) if flavour in ("san",) else {}
-        if st.get("env"):
-            e.update(st["env"])
+        for ek, evv in (st.get("env") or {}).items():
+            if ek in ("ASAN_OPTIONS", "UBSAN_OPTIONS") and ek in e:
+                e[ek] = e[ek] + ":" + evv       # later options win inside the sanitizer runtime
+            else:
+                e[ek] = evv
         base_args = ["--tier", tier, "--seed", str(seed)] + list(st.get("args", []))
         nshards = st.get("nshards", 16)
         sdir = os.path.join(rundir, "s%d" % si)
@@ -386,6 +410,9 @@ def run_check(prop, tier, seed, repo, stages, level, rule, assumptions,
               assumptions=assumptions, wall_s=round(wall, 2), violations=len(new_by_key))
     os.makedirs(os.path.join(VERIF, "evidence"), exist_ok=True)
     evp = os.path.join(VERIF, "evidence", "%s.json" % prop)
+    if os.path.realpath(repo) != os.path.realpath("/repo"):
+        # a run against a scratch copy (mutant testing) must not replace the evidence of /repo
+        evp = os.path.join(rundir, "evidence-%s.json" % prop)
     with open(evp + ".tmp", "w") as f:
         json.dump(ev, f, indent=1, sort_keys=True)
     os.replace(evp + ".tmp", evp)
